@@ -17,6 +17,7 @@ import (
 	"github.com/verily-src/fhirpath-go/fhirpath/system"
 	"github.com/verily-src/fhirpath-go/internal/fhir"
 	"google.golang.org/protobuf/proto"
+	"google.golang.org/protobuf/reflect/protoreflect"
 )
 
 // --- variables -----------------------------------------------------------------
@@ -89,9 +90,26 @@ func c17IsNested(k string) bool {
 	return k == "coll-nested" || (c17IsShape(k) && strings.Contains(k, "["))
 }
 
+// c17Datatypes: every message of the R4 datatypes file (primitives, complex types, Xhtml,
+// Reference, Extension …): each is a FHIR element a caller may hand in as a variable
+var c17Datatypes = func() []protoreflect.MessageDescriptor {
+	var out []protoreflect.MessageDescriptor
+	ms := (&dtpb.String{}).ProtoReflect().Descriptor().ParentFile().Messages()
+	for i := 0; i < ms.Len(); i++ {
+		if dynamicNew(ms.Get(i)) != nil {
+			out = append(out, ms.Get(i))
+		}
+	}
+	return out
+}()
+
 func c17VarValue(k string, pat fhir.Resource, name *dtpb.HumanName) any {
 	if c17IsShape(k) {
 		return c17ShapeValue(strings.TrimPrefix(k, "shape:"), pat, name)
+	}
+	if strings.HasPrefix(k, "elem:") {
+		i, _ := strconv.Atoi(strings.TrimPrefix(k, "elem:"))
+		return dynamicNew(c17Datatypes[i%len(c17Datatypes)]).Interface()
 	}
 	switch k {
 	case "sys", "dup", "predefined":
@@ -161,6 +179,10 @@ func c17GenEval(s Src) c17EvalCase {
 			}
 		case "predefined":
 			v.Name = pickOne(s, []string{"context", "ucum"})
+		case "elem":
+			if s.Prob(75) {
+				v.Kind = fmt.Sprintf("elem:%d", s.Intn(len(c17Datatypes)))
+			}
 		}
 		c.Vars = append(c.Vars, v)
 	}
@@ -245,9 +267,9 @@ func c17RunEval(ctx *Ctx, c c17EvalCase) {
 	wantExisting, wantUnsupported := false, false
 	seen := map[string]bool{"context": true, "ucum": true}
 	supplied := map[string]any{}
-	for _, v := range c.Vars {
+	for vi, v := range c.Vars {
 		val := c17VarValue(v.Kind, pat, pat.Name[0])
-		eopts = append(eopts, evalopts.EnvVariable(v.Name, val))
+		eopts = append(eopts, envVarV(vi+len(c.Vars)+len(src), v.Name, val))
 		_, unsup := c17VarInvalid(v.Kind)
 		if unsup {
 			wantUnsupported = true
@@ -436,7 +458,11 @@ type c17FnCase struct {
 
 var c17FnKinds = []string{"good0", "good1", "good2", "good-proto", "bad-first", "bad-results", "bad-noerr", "bad-concrete-error", "non-func", "nil", "variadic", "builtin-name", "dup-name", "no-params"}
 
-var c17Calls = []string{"%ints.g1(1)", "%ints.g0()", "g2(1, 'a')", "%names.gp(%name)", "%ints.g1('wrong type')", "%ints.g1(%ints)", "%ints.g1({})", "%ints.g1()", "%ints.g1(1, 2)", "%ints.g0(1)", "Patient.name.select(g1(2))", "%ints.where(g1(1).exists())", "1 + 1", "%ints.g1(1 + 1)", "%names.gp(1)"}
+// sources that do not parse: with a failing option among the options the option's error is
+// what Compile reports; without one, a syntax error
+var c17Malformed = []string{"Patient.name.where(", "Patient..name", "", "1 +", "%ints.g1(", "g1(1", "'abc", "Patient.name)"}
+
+var c17Calls = []string{"Patient.name.where(", "Patient..name", "", "1 +", "%ints.g1(", "g1(1", "'abc", "Patient.name)", "%ints.g1(1)", "%ints.g0()", "g2(1, 'a')", "%names.gp(%name)", "%ints.g1('wrong type')", "%ints.g1(%ints)", "%ints.g1({})", "%ints.g1()", "%ints.g1(1, 2)", "%ints.g0(1)", "Patient.name.select(g1(2))", "%ints.where(g1(1).exists())", "1 + 1", "%ints.g1(1 + 1)", "%names.gp(1)"}
 
 func c17GenFn(s Src) c17FnCase {
 	n := s.Range(0, 4)
@@ -485,48 +511,54 @@ func c17RunFn(ctx *Ctx, c c17FnCase) {
 		gotInput, gotArgs = in, []any{a}
 		return ret(in)
 	}
+	// both spellings of the option (compopts.AddFunction, fhirpath.WithFunction), alternating
+	nAdd := len(c.Fns)
+	add := func(name string, fn any) fhirpath.CompileOption {
+		nAdd++
+		return addFnV(nAdd, name, fn)
+	}
 	// the four well-typed functions are always registered; the generated kinds come on top
-	opts := []fhirpath.CompileOption{compopts.AddFunction("g0", g0), compopts.AddFunction("g1", g1), compopts.AddFunction("g2", g2), compopts.AddFunction("gp", gp)}
+	opts := []fhirpath.CompileOption{add("g0", g0), add("g1", g1), add("g2", g2), add("gp", gp)}
 	bad := false
 	extra := 0
 	for i, k := range c.Fns {
 		name := fmt.Sprintf("x%d", i)
 		switch k {
 		case "good0":
-			opts = append(opts, compopts.AddFunction(name, func(in system.Collection) (system.Collection, error) { return in, nil }))
+			opts = append(opts, add(name, func(in system.Collection) (system.Collection, error) { return in, nil }))
 		case "good1":
-			opts = append(opts, compopts.AddFunction(name, func(in system.Collection, s system.String) (system.Collection, error) { return in, nil }))
+			opts = append(opts, add(name, func(in system.Collection, s system.String) (system.Collection, error) { return in, nil }))
 		case "good2":
-			opts = append(opts, compopts.AddFunction(name, func(in system.Collection, d system.Decimal, b system.Boolean) (system.Collection, error) {
+			opts = append(opts, add(name, func(in system.Collection, d system.Decimal, b system.Boolean) (system.Collection, error) {
 				return in, nil
 			}))
 		case "good-proto":
-			opts = append(opts, compopts.AddFunction(name, func(in system.Collection, d *dtpb.Coding) (system.Collection, error) { return in, nil }))
+			opts = append(opts, add(name, func(in system.Collection, d *dtpb.Coding) (system.Collection, error) { return in, nil }))
 		case "bad-first":
-			opts, bad = append(opts, compopts.AddFunction(name, func(x system.Integer) (system.Collection, error) { return nil, nil })), true
+			opts, bad = append(opts, add(name, func(x system.Integer) (system.Collection, error) { return nil, nil })), true
 		case "bad-results":
-			opts, bad = append(opts, compopts.AddFunction(name, func(in system.Collection) system.Collection { return in })), true
+			opts, bad = append(opts, add(name, func(in system.Collection) system.Collection { return in })), true
 		case "bad-concrete-error":
 			// the second result must be the interface type `error` itself: a concrete type that
 			// implements it would turn a nil *c17Err into a non-nil error
-			opts, bad = append(opts, compopts.AddFunction(name, func(in system.Collection) (system.Collection, *c17Err) { return in, nil })), true
+			opts, bad = append(opts, add(name, func(in system.Collection) (system.Collection, *c17Err) { return in, nil })), true
 		case "bad-noerr":
-			opts, bad = append(opts, compopts.AddFunction(name, func(in system.Collection) (system.Collection, string) { return in, "" })), true
+			opts, bad = append(opts, add(name, func(in system.Collection) (system.Collection, string) { return in, "" })), true
 		case "non-func":
-			opts, bad = append(opts, compopts.AddFunction(name, 42)), true
+			opts, bad = append(opts, add(name, 42)), true
 		case "no-params":
-			opts, bad = append(opts, compopts.AddFunction(name, func() (system.Collection, error) { return nil, nil })), true
+			opts, bad = append(opts, add(name, func() (system.Collection, error) { return nil, nil })), true
 		case "nil":
 			var f func(system.Collection) (system.Collection, error)
 			_ = f
-			opts, bad = append(opts, compopts.AddFunction(name, 3.5)), true
+			opts, bad = append(opts, add(name, 3.5)), true
 		case "variadic":
-			opts = append(opts, compopts.AddFunction(name, func(in system.Collection, xs ...system.Any) (system.Collection, error) { return in, nil }))
+			opts = append(opts, add(name, func(in system.Collection, xs ...system.Any) (system.Collection, error) { return in, nil }))
 			extra++ // not asserted: the statement covers fixed parameter lists
 		case "builtin-name":
-			opts, bad = append(opts, compopts.AddFunction(pickOneFixed(i, []string{"where", "count", "toString", "first"}), g0)), true
+			opts, bad = append(opts, add(pickOneFixed(i, []string{"where", "count", "toString", "first"}), g0)), true
 		case "dup-name":
-			opts, bad = append(opts, compopts.AddFunction("g1", g1)), true
+			opts, bad = append(opts, add("g1", g1)), true
 		}
 	}
 	// the order of the options must not matter for validity: rotate by the number of functions
@@ -544,13 +576,35 @@ func c17RunFn(ctx *Ctx, c c17FnCase) {
 		return
 	}
 	wrongCount := c.Call == "%ints.g1()" || c.Call == "%ints.g1(1, 2)" || c.Call == "%ints.g0(1)"
-	if bad || wrongCount {
+	malformed := false
+	for _, m := range c17Malformed {
+		malformed = malformed || m == c.Call
+	}
+	if bad || wrongCount || malformed {
 		if cerr == nil {
 			what := "a bad signature / non-function / existing or duplicate name"
 			if !bad {
 				what = "a wrong argument count at the call site"
 			}
+			if !bad && malformed {
+				what = "a source that does not parse"
+			}
 			ctx.Fail("functions: Compile accepts "+what, desc)
+			return
+		}
+		if bad {
+			// "Compile returns that error": the error the same options give with a source that is
+			// beyond reproach, whatever else is wrong with this source or its call sites
+			var refErr error
+			if g := guard(func() { _, refErr = fhirpath.Compile("1", opts...) }); g.Panic == "" && refErr != nil && refErr.Error() != cerr.Error() {
+				what := "well-formed"
+				if malformed {
+					what = "malformed"
+				} else if wrongCount {
+					what = "wrong argument count"
+				}
+				ctx.Fail("functions: with a failing option Compile reports another error than the option's ("+what+" source)", desc+fmt.Sprintf(" ; the options alone give: %v", refErr))
+			}
 		}
 		return
 	}
@@ -560,8 +614,8 @@ func c17RunFn(ctx *Ctx, c c17FnCase) {
 	}
 	vars := progVarsFor(pat)
 	var eopts []fhirpath.EvaluateOption
-	for _, k := range sortedKeys(vars) {
-		eopts = append(eopts, evalopts.EnvVariable(k, vars[k]))
+	for ki, k := range sortedKeys(vars) {
+		eopts = append(eopts, envVarV(ki+len(c.Fns), k, vars[k]))
 	}
 	var coll system.Collection
 	var err error
